@@ -34,6 +34,19 @@
 
 using namespace clang;
 using namespace clang::tooling;
+
+// can a call to FD let an exception out?  C functions (extern "C") and functions with a non-throwing exception specification cannot
+static bool mayThrow(const clang::FunctionDecl *FD) {
+  if (!FD || !FD->getASTContext().getLangOpts().CPlusPlus || FD->isExternC() || FD->getBuiltinID())
+    return false;
+  const auto *FPT = FD->getType()->getAs<clang::FunctionProtoType>();
+  if (!FPT)
+    return false;
+  if (clang::isUnresolvedExceptionSpec(FPT->getExceptionSpecType()))
+    return false;      // not instantiated: unknown, say nothing
+  return !FPT->isNothrow();
+}
+
 namespace json = llvm::json;
 
 static llvm::cl::OptionCategory Cat("extract options");
@@ -257,6 +270,8 @@ struct Extractor {
         O["cdid"] = declId(FD);
         if (FD->isNoReturn())
           O["noreturn"] = true;
+        if (mayThrow(FD))
+          O["maythrow"] = true;
       }
       O["nargs"] = (int64_t) CE->getNumArgs();
     } else if (auto *BO = dyn_cast<BinaryOperator>(St)) {
@@ -312,6 +327,8 @@ struct Extractor {
     } else if (auto *CCE = dyn_cast<CXXConstructExpr>(St)) {
       O["ctor"] = CCE->getConstructor()->getQualifiedNameAsString();
       O["nargs"] = (int64_t) CCE->getNumArgs();
+      if (mayThrow(CCE->getConstructor()))
+        O["maythrow"] = true;
     } else if (auto *NE = dyn_cast<CXXNewExpr>(St)) {
       O["array"] = NE->isArray();
       O["allocT"] = typeStr(NE->getAllocatedType());
@@ -508,6 +525,8 @@ struct Extractor {
     O["static"] = FD->getStorageClass() == SC_Static;
     O["ret"] = typeStr(FD->getReturnType());
     O["retct"] = typeStr(FD->getReturnType().getCanonicalType());
+    if (!mayThrow(FD) && !FD->isExternC() && FD->getASTContext().getLangOpts().CPlusPlus)
+      O["nothrow"] = true;
     if (FD->isTemplateInstantiation())
       O["instantiation"] = true;
     if (auto *MD = dyn_cast<CXXMethodDecl>(FD)) {
